@@ -253,6 +253,8 @@ def as_sequence(eng, v):
         raise Unsupported("invariant-cut loop over a concrete list of non-scalars")
     if isinstance(v, DictListRef):
         return v.nz(), v.get
+    if type(v) is tuple:  # a tuple of values (e.g. the default of `d.get(k, ())`): the list of the same elements
+        return as_sequence(eng, PList(list(v)))
     if isinstance(v, _SymRange):
         lo, hi = to_z3(v.lo, "int"), to_z3(v.hi, "int")
         st = v.step
@@ -643,6 +645,16 @@ def _m_pop(eng, recv, args, kwargs):
     check_frame(eng, recv)
     if isinstance(recv, PDict):
         return _d_pop(eng, recv, args, kwargs)
+    if isinstance(recv, DictListRef):  # pop() of the int list stored in a symbolic dict
+        if args:
+            raise Unsupported("pop(i) on a list stored in a symbolic dict")
+        d, kz = recv.d, to_z3(recv.key, "int")
+        ln = z3.Select(d.lens, kz)
+        if not eng.branch(eng.sbool(ln > 0)):
+            raise ProgExc(IndexError, "pop from empty list")
+        v = recv.get(ln - 1)
+        d.lens = z3.Store(d.lens, kz, ln - 1)
+        return v
     if recv.items is not None:
         try:
             return recv.items.pop(*args)
@@ -661,6 +673,10 @@ def _m_pop(eng, recv, args, kwargs):
 def _m_extend(eng, recv, args, kwargs):
     (src,) = args
     check_frame(eng, recv)
+    if isinstance(recv, DictListRef):  # the int list stored in a symbolic dict: element-wise append of an iterable of concrete length
+        for x in iterate_concrete(eng, src):
+            _m_append(eng, recv, [x], {})
+        return None
     if recv.items is not None:
         if not recv.items and isinstance(src, SArr):
             return _extend_empty_by_array(eng, recv, src)
@@ -744,6 +760,8 @@ def _m_copy(eng, recv, args, kwargs):
             c.items = list(recv.items)
         else:
             c.items, c.cols, c.kinds, c.n, c.tup, c.name = None, list(recv.cols), list(recv.kinds), recv.n, recv.tup, recv.name
+        if getattr(recv, "is_deque", False):
+            c.is_deque = True
         return c
     if isinstance(recv, PDict):
         c = PDict(default_factory=recv.default_factory)
@@ -784,6 +802,49 @@ LIST_METHODS = {
     "append": _m_append, "pop": _m_pop, "extend": _m_extend, "clear": _m_clear, "copy": _m_copy,
     "reverse": _m_reverse, "index": _m_index, "insert": _m_insert,
 }
+
+
+# collections.deque (no maxlen): a PList flagged `is_deque`; append / pop / extend / clear / len / truth / iteration / indexing are the
+# list's, the left-end operations are below
+def _m_appendleft(eng, recv, args, kwargs):
+    (x,) = args
+    check_frame(eng, recv)
+    if recv.items is not None:
+        recv.items.insert(0, x)
+        return None
+    vs = x if recv.tup else (x,)
+    if recv.tup and (not isinstance(x, tuple) or len(x) != len(recv.kinds)):
+        raise Unsupported("appendleft of a value that does not match the declared element type")
+    i = z3.Int(fresh_name("al"))
+    recv.cols = [z3.Lambda([i], z3.If(i == 0, to_z3(v, k), z3.Select(c, i - 1))) for c, v, k in zip(recv.cols, vs, recv.kinds)]
+    recv.n = z3.simplify(zint(recv.n) + 1)
+    return None
+
+
+def _m_popleft(eng, recv, args, kwargs):
+    check_frame(eng, recv)
+    if recv.items is not None:
+        if not recv.items:
+            raise ProgExc(IndexError, "pop from an empty deque")
+        return recv.items.pop(0)
+    nz = zint(recv.n)
+    if not eng.branch(eng.sbool(nz > 0)):
+        raise ProgExc(IndexError, "pop from an empty deque")
+    v = recv.get(0)
+    i = z3.Int(fresh_name("pl"))
+    recv.cols = [z3.Lambda([i], z3.Select(c, i + 1)) for c in recv.cols]
+    recv.n = z3.simplify(nz - 1)
+    return v
+
+
+def _m_extendleft(eng, recv, args, kwargs):
+    (src,) = args
+    for x in iterate_concrete(eng, src):  # CPython: a series of appendleft calls (the iterable ends up reversed)
+        _m_appendleft(eng, recv, [x], {})
+    return None
+
+
+DEQUE_METHODS = {"appendleft": _m_appendleft, "popleft": _m_popleft, "extendleft": _m_extendleft}
 
 
 # ------------------------------------------------------------ dict methods
@@ -935,6 +996,10 @@ def method_of(eng, v, name):
     if isinstance(v, (PList, DictListRef)):
         if name in LIST_METHODS:
             return NativeMethod(LIST_METHODS[name], v, name)
+        if name in DEQUE_METHODS:
+            if getattr(v, "is_deque", False):
+                return NativeMethod(DEQUE_METHODS[name], v, name)
+            raise ProgExc(AttributeError, f"'list' object has no attribute '{name}'")
     if isinstance(v, PDict):
         if name in DICT_METHODS:
             return NativeMethod(DICT_METHODS[name], v, name)
@@ -1205,6 +1270,10 @@ def _b_list(eng, args, kwargs):
         return p
     if isinstance(v, Opaque) and "__list__" in v.proto:
         return v.proto["__list__"](eng, v)
+    if isinstance(v, DictListRef):  # list(d[k]) of the int list stored in a symbolic dict: a new list with the same elements
+        p = PList()
+        p.items, p.cols, p.kinds, p.n, p.tup = None, [z3.Select(v.d.val, to_z3(v.key, "int"))], ["int"], z3.simplify(v.nz()), False
+        return p
     if isinstance(v, _SymRange):
         n, g = as_sequence(eng, v)
         i = z3.Int(fresh_name("ri"))
@@ -1222,6 +1291,16 @@ def _b_list(eng, args, kwargs):
             p.cols = [z3.Lambda([i], to_z3(x, kind_of(x)))]
             return p
     return PList(iterate_concrete(eng, v))
+
+
+def _b_deque(eng, args, kwargs):
+    """collections.deque([iterable]): see DEQUE_METHODS"""
+    if kwargs.get("maxlen") is not None or (len(args) > 1 and args[1] is not None) or set(kwargs) - {"maxlen"}:
+        raise Unsupported("collections.deque with maxlen")
+    p = _b_list(eng, list(args[:1]), {})
+    p.is_deque = True
+    eng.assumptions.add("builtin-model: collections.deque without maxlen is a list with appendleft / popleft / extendleft (cross-checked: tools/xcheck_c04_models.py)")
+    return p
 
 
 def _b_tuple(eng, args, kwargs):
@@ -1463,14 +1542,40 @@ def _b_cast(eng, args, kwargs):
     return args[1]
 
 
+def _symbolic_view(v):
+    """(cols, kinds, tup, n) of a list-like value of SYMBOLIC length (a symbolic list, the int list stored in a symbolic dict, a 1-D
+    array of symbolic length), None for anything else"""
+    if isinstance(v, DictListRef):
+        return [z3.Select(v.d.val, to_z3(v.key, "int"))], ["int"], False, v.nz()
+    if isinstance(v, PList) and v.items is None and v.proto is None:
+        return list(v.cols), list(v.kinds), v.tup, zint(v.n)
+    if type(v) is SArr and not isinstance(v.n, int):
+        return [v.arr], [v.kind], False, v.nz()
+    return None
+
+
 def _b_reversed(eng, args, kwargs):
+    """reversed(seq): the elements of seq from the last to the first; of the same symbolic length when seq's length is symbolic
+    (position i holds seq[n-1-i])"""
     a = args[0]
     if isinstance(a, PList) and a.items is None and not a.tup:
         # reversed(L) of a list of symbolic length: an iterator over the elements L[n-1], ..., L[0] (the list-slice model of L[::-1])
         from . import npmodels
 
         return Iter(npmodels.plist_slice(eng, a, slice(None, None, -1)))
-    return PList(list(reversed(iterate_concrete(eng, a))))
+    try:
+        return PList(list(reversed(iterate_concrete(eng, args[0]))))
+    except Unsupported:
+        view = _symbolic_view(args[0])
+        if view is None:
+            raise
+    cols, kinds, tup, n = view
+    i = z3.Int(fresh_name("rv"))
+    p = PList()
+    p.items, p.kinds, p.tup, p.n, p.name = None, kinds, tup, z3.simplify(n), "reversed"
+    p.cols = [z3.Lambda([i], z3.Select(c, n - 1 - i)) for c in cols]
+    eng.assumptions.add("builtin-model: reversed(seq) of a sequence of symbolic length n is the list r with len(r) = n and r[i] = seq[n-1-i] (cross-checked: tools/xcheck_c04_models.py)")
+    return p
 
 
 def _b_sorted(eng, args, kwargs):
@@ -1627,7 +1732,7 @@ import copy as _copy  # noqa: E402
 BUILTIN_MODELS = {
     _copy.deepcopy: _b_deepcopy, _copy.copy: _b_copy, slice: _b_slice,
     len: _b_len, range: _b_range, isinstance: _b_isinstance, bool: _b_bool, int: _b_int, float: _b_float,
-    list: _b_list, tuple: _b_tuple, dict: _b_dict, collections.defaultdict: _b_defaultdict, zip: _b_zip,
+    list: _b_list, tuple: _b_tuple, dict: _b_dict, collections.defaultdict: _b_defaultdict, collections.deque: _b_deque, zip: _b_zip,
     enumerate: _b_enumerate, map: _b_map, iter: _b_iter, next: _b_next, min: _b_min, max: _b_max,
     sum: _b_sum, abs: _b_abs, any: _b_any, all: _b_all, str: _b_str, _warnings.warn: _b_warn,
     reversed: _b_reversed, sorted: _b_sorted, itertools.chain: _b_chain, print: _b_print,
